@@ -1,5 +1,5 @@
 (* C11 — shape of the generated cases and the two executable verdicts. No proofs. *)
-From C11 Require Import Model ModelDoc.
+From C11 Require Import Model ModelDoc ModelMulti ModelLex.
 
 Definition bytes_eqb := list_eqb_N.
 
@@ -35,6 +35,81 @@ Definition m_skipped := skipped.
    every literal among the index tokens of the field *)
 Definition qobs := (list N * option (list (list term)) * bool)%type.
 
+(* what the harness saw the real parser return for a query text *)
+Inductive pobs := OErr | OOther | OForm (f : qform).
+
+(* where the rendered literal stands in the query on field `f` *)
+Inductive rpos :=
+| PPlain                                             (* f:<lit> *)
+| PIn (before after : list (style * list N))         (* f:in(<b1>, .., <lit>, <a1>, ..) *)
+| PRange.                                            (* f:[<lit> to <lit>] *)
+
+Definition ltok_eqb (a b : ltok) : bool :=
+  bytes_eqb (t_txt a) (t_txt b) && Bool.eqb (t_quoted a) (t_quoted b) && Bool.eqb (t_raw a) (t_raw b)
+  && Bool.eqb (t_space a) (t_space b).
+
+Definition qform_eqb (a b : qform) : bool :=
+  match a, b with
+  | QPlain x, QPlain y => lits_eqb x y
+  | QIn x, QIn y => list_eqb lits_eqb x y
+  | QRange f1 t1 a1 b1, QRange f2 t2 a2 b2 => term_eqb f1 f2 && term_eqb t1 t2 && Bool.eqb a1 a2 && Bool.eqb b1 b2
+  | _, _ => false
+  end.
+
+(* `f:in(x)` builds the same tree as `f:x`: the harness cannot tell them apart *)
+Definition qnorm (f : qform) : qform := match f with QIn [l] => QPlain l | _ => f end.
+
+Definition obs_agrees (m : R qform) (o : pobs) : bool :=
+  match m, o with
+  | RUnsup, _ => true                 (* outside the modelled fragment (several filters, not, pipes ..) *)
+  | ROk f, OForm g => qform_eqb (qnorm f) (qnorm g)
+  | RErr, OErr => true
+  | _, _ => false
+  end.
+
+Definition K_INDEX : list N := [95; 105; 110; 100; 101; 120].   (* "_index" *)
+(* indexType(mapping, field) for the mapping {name: t} *)
+Definition case_ftype (name : list N) (t : ttype) (n : list N) : ttype :=
+  if list_eqb_N n name then t
+  else if list_eqb_N n K_ALL || list_eqb_N n K_EXISTS || list_eqb_N n K_INDEX then TyKeyword else TyNoop.
+
+Definition m_text (legacy : bool) (name : list N) (t : ttype) (sens : bool) (q : list N) : R qform :=
+  if legacy then
+    match m_legacy_text (case_ftype name t) sens q with
+    | ROk l => ROk (QPlain l) | RErr => RErr | RUnsup => RUnsup | RFuel => RFuel
+    end
+  else m_seqql_text (case_ftype name t) sens q.
+
+Definition render_lit (legacy : bool) (st : style) (s : list N) : list N :=
+  if legacy then match st with StBare => s | _ => render_legacy s end else render st s.
+
+(* the query text the harness writes for a round-trip case *)
+Definition build_text (legacy : bool) (st : style) (pos : rpos) (s : list N) : list N :=
+  let lit := render_lit legacy st s in
+  match pos with
+  | PPlain => [102; 58] ++ lit
+  | PIn before after =>
+      [102; 58; 105; 110; 40]
+      ++ concat (map (fun m : style * list N => render (fst m) (snd m) ++ [44; 32]) before)
+      ++ lit
+      ++ concat (map (fun m : style * list N => [44; 32] ++ render (fst m) (snd m)) after) ++ [41]
+  | PRange => [102; 58; 91] ++ lit ++ [32; 116; 111; 32] ++ lit ++ [93]
+  end.
+
+(* the literal made from the string is exactly the one text term tok *)
+Definition obs_is_term (pos : rpos) (o : pobs) (tok : list N) : bool :=
+  match pos, o with
+  | PPlain, OForm (QPlain [[TText d]]) => bytes_eqb d tok
+  | PIn [] [], OForm (QPlain [[TText d]]) => bytes_eqb d tok
+  | PIn before after, OForm (QIn ms) =>
+      Nat.eqb (length ms) (S (length before + length after))
+      && match nth_error ms (length before) with Some [[TText d]] => bytes_eqb d tok | _ => false end
+  | PRange, OForm (QRange (TText f) (TText t) true true) => bytes_eqb f tok && bytes_eqb t tok
+  | _, _ => false
+  end.
+
+Definition m_index_types := index_types go_is_letter go_is_number go_to_lower.
+
 Inductive case :=
 (* real tokenizer of type t, configuration c, per-field size fmax (0 = default) on value v emitted
    the token values toks; qs = observations for the queries the harness derived from v, parsed by
@@ -64,7 +139,21 @@ Inductive case :=
       (toks : list (list N)) (found : bool)
 (* the range form `f:[<lit of s> to <lit of s>]` on a keyword/path/`_exists_` field: the two bound terms *)
 | CRange (is_ex sens : bool) (s : list N) (plain : option (list (list term)))
-         (bounds : option (term * term)) (toks : list (list N)) (found : bool).
+         (bounds : option (term * term)) (toks : list (list N)) (found : bool)
+(* ---- query TEXT (extension): the real SeqQL lexer (parser.lexer.Next until IsEnd) on the query text q left
+   these tokens (None: it did not reach the end) *)
+| CLex (q : list N) (toks : option (list ltok))
+(* the real ParseSeqQL (legacy = false) / ParseQuery (legacy = true) on the query TEXT q, mapping = one field
+   `name` of type t plus the built-in fields, configured case sensitivity sens: what came back *)
+| CQText (legacy : bool) (name : list N) (t : ttype) (sens : bool) (q : list N) (o : pobs)
+(* round trip: s is a string the property says must be found (whole value / word / leading path of a value whose
+   real tokenizer emitted toks); the harness rendered it in style st at position pos of a query on field `f`
+   (text q), and the real parser returned o *)
+| CRound (legacy : bool) (st : style) (pos : rpos) (t : ttype) (sens : bool) (s : list N) (q : list N) (o : pobs)
+         (toks : list (list N))
+(* multi-type field: the real bulk processor on {"key": v} with the titles `all` (in this order) emitted the meta
+   `meta`; per_title = what the REAL tokenizer of each title emits on a fresh copy of the ORIGINAL value *)
+| CMulti (c : icfg) (all : list mtype) (key v : list N) (per_title : list (list (list N))) (meta : list token).
 
 Definition q_str (q : qobs) := fst (fst q).
 Definition q_lits (q : qobs) := snd (fst q).
@@ -102,6 +191,18 @@ Fixpoint case_agrees (c : case) : bool :=
          | Some (f, t) => implb (range_finds f t toks) found   (* numeric ranges may find more *)
          | None => negb found
          end
+  | CLex q toks =>
+      match m_lex q, toks with
+      | ROk ts, Some os => list_eqb ltok_eqb ts os
+      | _, _ => false
+      end
+  | CQText legacy name t sens q o => obs_agrees (m_text legacy name t sens q) o
+  | CRound legacy st pos t sens s q o toks =>
+      bytes_eqb (build_text legacy st pos s) q
+      && obs_agrees (m_text legacy [102] t sens q) o
+  | CMulti c all key v per_title meta =>
+      list_eqb token_eqb ((K_ALL, []) :: m_index_types c all key (Some v)) meta
+      && list_eqb (list_eqb bytes_eqb) (map (fun mt : mtype => let '(_, ty, mx) := mt in m_tokenize ty c mx v) all) per_title
   end.
 
 (* the fields of a document as the property describes them (executable form of [reach]): into objects, tag
@@ -193,6 +294,19 @@ Definition case_spec_ok (c : case) : bool :=
          | Some [[p]], Some (f, t) => term_eqb f p && term_eqb t p
          | _, _ => false
          end
+  | CLex _ toks => match toks with Some _ => true | None => false end      (* the lexer reaches the end *)
+  | CQText _ _ _ _ _ _ => true
+  (* "the term the real parser yields equals a token the real indexer emitted" *)
+  | CRound _ _ pos _ _ _ _ o toks => existsb (obs_is_term pos o) toks
+  (* the real indexer's tokens for title k = the real tokenizer of title k on the ORIGINAL value *)
+  | CMulti c all key v per_title meta =>
+      list_eqb token_eqb meta
+        ((K_ALL, []) ::
+         concat (map (fun p : mtype * list (list N) =>
+                        let '((title, ty, _), toks) := p in
+                        if has_tokenizer ty then map (pair (title_of title key)) toks ++ [(K_EXISTS, title_of title key)]
+                        else []) (combine all per_title)))
+      && Nat.eqb (length all) (length per_title)
   end.
 
 Definition diff_indices (l : list case) : list nat := bad_indices (fun c => negb (case_agrees c)) l.
